@@ -267,6 +267,9 @@ SPECS['C06'] = dict(
                    'that catches it has its value delivered; other jobs unaffected', timeout=(300, 1500)), 6)
         + parts(twin('worker-soft', 'harness.c03', 'h_soft_twin', 'a run with the signal inside a task exists'), 6)
         + [smt('instrumentation-valid', 'harness.c03', 'v_instrumentation', 'instrumented workloop == original on concrete scripts', kind='validate')]
+        + [ch('after-fork-signal-order', 'harness.c03', 'h_after_fork', '"raised inside the process running that job": real Worker.after_fork with a recording signal table - the soft-limit handler is '
+              'installed after the user initializer ran (an initializer that resets SIGUSR1, as Celery\'s does, must not leave the child with the default action, which would kill it)',
+              timeout=(300, 1500), nontrivial_witness=True)]
     ),
 )
 
@@ -289,6 +292,9 @@ SPECS['C01'] = dict(
                  'all resolved at quiescence', timeout=(300, 1500)), 12)
         + parts(ch('faults', 'harness.c01', 'h_fault', 'workers die with any status mid-task or idle, ticks and clock advances interleaved: '
                    'WorkerLostError only for the job whose worker died holding it', timeout=(300, 1500)), 18)
+        + parts(ch('raising-callback', 'harness.c01', 'h_cbraise', 'job A\'s success callback raises an exception the submitter asked to have propagated (callbacks_propagate): it leaves the result '
+                   'handler\'s turn, the outcome exists all the same - stable, callbacks at most once also after duplicate / late messages and worker exits, the entry leaves the cache', timeout=(300, 1500)), 6)
+        + parts(twin('raising-callback', 'harness.c01', 'h_cbraise_twin', 'a run in which the callback raises exists'), 6)
         + parts(twin('dispatch', 'harness.c01', 'h_dispatch_twin', 'a run handling a duplicate message exists'), 12)
         + parts(twin('faults', 'harness.c01', 'h_fault_twin', 'a run reporting a lost job exists'), 18)
         + parts(twin('terminate-job', 'harness.c01', 'h_term_twin', 'a run terminating a busy worker exists'), 6)
@@ -296,7 +302,7 @@ SPECS['C01'] = dict(
                    'submitted before it (any kind, first job of the pool or not, queued / accepted / finished-unread) keeps its own outcome, the feeder survives, the items '
                    'already read are delivered', timeout=(300, 1500)), 4)
         + parts(twin('failing-input', 'harness.c01b', 'h_bad_input_twin', 'the feeder gets through the failing input in some run'), 4)
-        + parts(ch('terminate-job', 'harness.c01', 'h_term', 'terminate_job on a busy worker: Terminated for exactly its job', timeout=(300, 1500)), 6)
+        + parts(ch('terminate-job', 'harness.c01', 'h_term', 'terminate_job on a busy worker, other workers exiting with any status before the same supervision pass: Terminated for exactly its job, a job whose worker merely died is lost, not terminated', timeout=(300, 1500)), 6)
         + parts(ch('send-failure', 'harness.c01', 'h_send', 'a task that cannot be written (symbolic index): the failure lands on that job and only it; '
                    'every job still resolves', timeout=(300, 1500)), 3)
         + parts(twin('send-failure', 'harness.c01', 'h_send_twin', 'the failing send is reached'), 3)
@@ -358,6 +364,9 @@ SPECS['C09'] = dict(
         + [smt('instrumentation-valid', 'harness.c03', 'v_instrumentation', 'instrumented workloop == original on concrete scripts', kind='validate'),
            ch('worker-memlimit', 'harness.c03', 'h_memlimit', 'memory limit: the loop returns EX_RECYCLE right after the task that crossed it, after its READY',
               timeout=(300, 1500), nontrivial_witness=True)]
+        + [ch('worker-exit-status', 'harness.c03', 'h_exit_status', 'the whole life of a worker through the real Worker.__call__ / workloop / _do_exit without any signal, tasks that return, raise or call '
+              'sys.exit(3) themselves, quota 0..n: the process exit status, the status given to the exit callback and the one in the DEATH notice are the recycle status exactly when the quota '
+              'was reached and the clean status otherwise', timeout=(300, 1500), nontrivial_witness=True)]
         + parts(ch('worker-quota', 'harness.c03', 'h_protocol', 'at most N task bodies per worker, EX_RECYCLE after the consumption guard', timeout=(300, 1500)), 9)
     ),
 )
